@@ -993,5 +993,37 @@ func TestVerifC16RetryTimer(t *testing.T) {
 			break
 		}
 	}
+	// a stream refused twice and then served: attempt 2 starts (and is refused) while attempt 1's retry period is still
+	// running, attempt 3 is served after attempt 1's period has run out but within attempt 2's. The operation completes
+	// its trace exactly once, with the served attempt.
+	for _, server := range []bool{false, true} {
+		ex := vfExchange{Server: server, GoAwayAt: -1, Schedule: []int{0}}
+		for attempt := 1; attempt <= 3; attempt++ {
+			sp := vfStreamSpec{Named: true, Name: 0, Attempt: attempt, ReqCT: "application/proto", RespCT: "application/proto",
+				ReqMsgs: []vfMsg{{Payload: []byte("ping")}}, RespMsgs: []vfMsg{{Payload: []byte("pong")}}, Trailers: true, Order: []bool{true, false, true, false}}
+			if attempt < 3 {
+				sp.Fault, sp.FaultAt, sp.RSTCode = "refused", 1, 7
+			}
+			ex.Streams = append(ex.Streams, sp)
+		}
+		mu.Lock()
+		vfPauseBeforeFrame = func(desc string) time.Duration {
+			switch {
+			case strings.HasPrefix(desc, "headers(s1,dir0"):
+				return retryWait / 2
+			case strings.HasPrefix(desc, "headers(s2,dir0"):
+				return retryWait/2 + 400*time.Millisecond
+			}
+			return 0
+		}
+		err := vfC15Check(ex)
+		vfPauseBeforeFrame = nil
+		mu.Unlock()
+		r := map[string]any{"server": server, "scenario": "refused, refused again within the retry period, then served"}
+		en.Rec.Observe(r, []string{fmt.Sprintf("server:%v", server), "double-refusal"}, true)
+		if err != nil && en.Fail(r, err) {
+			break
+		}
+	}
 	en.Done(true)
 }
